@@ -523,7 +523,7 @@ func widthText(w int64) string {
 
 func init() {
 	register(&Rule{
-		Name: "padding-shape", Props: []string{"C05", "C16", "C01"}, Engine: "LIN", Floor: 4,
+		Name: "padding-shape", Props: []string{"C05", "C16", "C01", "C17"}, Engine: "LIN", Floor: 4,
 		Doc: "CutPadding rejects exactly the impossible shapes: each rejecting test is a plain disjunction of comparisons from {no payload, length < 1, length > len(payload), pad >= length} (plus one comparison those imply), so no well-formed padded frame is refused; AddPadding emits pad-length octet n, the data, then n octets, with n at most 255, and the padding octets are zero (RFC 7540 s6.1)",
 		Run: rulePaddingShape,
 	})
